@@ -80,6 +80,73 @@ class Part:                      # head / tail of the string under test around t
         self.kind, self.sep = kind, sep
 
 
+class StrMeth:                   # a bound method of the string under test kept in a local: test = value.startswith
+    def __init__(self, attr):
+        self.attr = attr
+
+
+class Derived:
+    """A string computed from the string under test by a chain of transforms with exact pre-images:
+    ("strip"|"lstrip"|"rstrip", chars), ("from", k) = x[k:], ("upto", m) = x[:-m] (m > 0),
+    ("head"|"tail", c) = x.partition(c)[0|2] for a single character c."""
+
+    def __init__(self, chain):
+        self.chain = tuple(chain)
+
+    def then(self, kind, arg):
+        return Derived(self.chain + ((kind, arg),))
+
+
+def _preimage(kind, arg, L):
+    """{x | transform(x) in L}"""
+    if kind in ("strip", "lstrip", "rstrip"):
+        cs = SL.syms(arg)
+        run = star(cs) if arg else SL.EPSILON
+        core = L
+        if kind in ("strip", "lstrip") and arg:
+            core = core - SL.first_in(cs)
+        if kind in ("strip", "rstrip") and arg:
+            core = core - SL.last_in(cs)
+        out = core
+        if kind in ("strip", "lstrip"):
+            out = concat(run, out)
+        if kind in ("strip", "rstrip"):
+            out = concat(out, run)
+        if kind == "strip" and arg and L.accepts(""):
+            out = out | run                 # a run of stripped characters only: the result is empty
+        return out
+    if kind == "from":
+        k = arg
+        if k == 0:
+            return L
+        out = concat(SL.length_eq(k), L)
+        if L.accepts(""):
+            out = out | ~SL.length_gt(k - 1)
+        return out
+    if kind == "upto":
+        m = arg
+        out = concat(L, SL.length_eq(m))
+        if L.accepts(""):
+            out = out | ~SL.length_gt(m - 1)
+        return out
+    if kind in ("head", "tail"):
+        c = SL.syms([arg])
+        noc = ~contains_any_char(c)
+        if kind == "head":
+            return concat(L & noc, SL.EPSILON | concat(SL.lit(arg), EVERYTHING))
+        out = concat(concat(noc, SL.lit(arg)), L)
+        if L.accepts(""):
+            out = out | noc
+        return out
+    raise Unsupported("transform " + kind)
+
+
+def pullback(chain, L):
+    for kind, arg in reversed(chain):
+        L = _preimage(kind, arg, L)
+    return L
+
+
 class _SelfProxy:
     """`self` in table expressions: exposes data attributes only."""
 
@@ -209,6 +276,7 @@ def run(cls, fname, ctx, after=None, bind=None):
         raise
     res = {k: out.get(k, EMPTY) for k in ("T", "F", "ID", "V", "E")}
     res["F"] = res["F"] | out.get("N", EMPTY)      # falling off the end returns None (falsy)
+    res["NONE"] = out.get("NONE", EMPTY) | out.get("N", EMPTY)     # the part of F on which the value is None
     ctx.memo[key] = res
     return res
 
@@ -237,6 +305,17 @@ class Eval:
         ns = {k: v.v for k, v in self.env.items() if isinstance(v, Conc)}
         ns["self"] = _SelfProxy(self.ctx, evaluator=self)
         ns["chain"] = itertools.chain
+        # module-level literal tables of the module that defines the method (NAME = <literal>, assigned once)
+        if self.defcls in self.ctx.repo.classes:
+            modname = self.ctx.repo.classes[self.defcls].module.name
+            for n in ast.walk(e):
+                if isinstance(n, ast.Name) and isinstance(n.ctx, ast.Load) and n.id not in ns and n.id not in self.env and id(n) not in selfattr:
+                    mc = self.ctx.repo.module_constant(modname, n.id)
+                    if mc is not None:
+                        try:
+                            ns[n.id] = ast.literal_eval(mc)
+                        except (ValueError, SyntaxError):
+                            pass
         safe = {"set": set, "list": list, "tuple": tuple, "frozenset": frozenset, "sorted": sorted, "dict": dict,
                 "len": len, "str": str, "min": min, "max": max, "any": any, "all": all, "reversed": reversed,
                 "enumerate": enumerate, "zip": zip, "int": int, "float": float, "bool": bool, "range": range}
@@ -258,7 +337,7 @@ class Eval:
 
     def mentions_str(self, e):
         for n in ast.walk(e):
-            if isinstance(n, ast.Name) and (isinstance(self.env.get(n.id), (Str, Match, Part, Folded, Bool, Unknown)) or n.id == "$value"):
+            if isinstance(n, ast.Name) and (isinstance(self.env.get(n.id), (Str, Match, Part, Folded, Bool, Unknown, Derived)) or n.id == "$value"):
                 return True
         return False
 
@@ -274,7 +353,77 @@ class Eval:
             return (p.kind, p.sep)
         return None
 
+    def derived_in(self, e):
+        return [n.id for n in ast.walk(e) if isinstance(n, ast.Name) and isinstance(self.env.get(n.id), Derived)]
+
+    def cond_derived(self, e, reach):
+        """a condition on a derived string: its language over the derived string, pulled back through the transforms"""
+        names = self.derived_in(e)
+        chains = {self.env[n].chain for n in names}
+        if len(chains) != 1:
+            raise Unsupported("condition over two derived strings: " + ast.unparse(e)[:60])
+        env = {}
+        for k, v in self.env.items():
+            if isinstance(v, Derived):
+                env[k] = STR
+            elif isinstance(v, Conc) or v is None:
+                env[k] = v
+            elif k in {n.id for n in ast.walk(e) if isinstance(n, ast.Name)}:
+                raise Unsupported("condition over a derived string and the string itself: " + ast.unparse(e)[:60])
+        sub = Eval(self.ctx, self.cls, self.defcls, env)
+        L = sub.cond0(e, EVERYTHING)
+        return reach & pullback(next(iter(chains)), L)
+
+    def derive(self, v):
+        """expression -> Derived value when it is a modelled transform of the string under test (or of a derived one)"""
+        base = None
+        def chain_of(x):
+            if self.is_str(x):
+                return ()
+            if isinstance(x, ast.Name) and isinstance(self.env.get(x.id), Derived):
+                return self.env[x.id].chain
+            if isinstance(x, ast.Call) and isinstance(x.func, ast.Name) and x.func.id == "str" and len(x.args) == 1 and not x.keywords:
+                return chain_of(x.args[0])
+            if isinstance(x, ast.Call) and isinstance(x.func, ast.Attribute) and x.func.attr in ("strip", "lstrip", "rstrip") \
+                    and len(x.args) == 1 and not x.keywords:
+                c = chain_of(x.func.value)
+                if c is None:
+                    return None
+                chars = self.conc(x.args[0])
+                if not isinstance(chars, str):
+                    raise Unsupported("strip argument " + ast.unparse(x.args[0])[:40])
+                return c + ((x.func.attr, "".join(sorted(set(chars)))),)
+            if isinstance(x, ast.Subscript) and isinstance(x.slice, ast.Slice) and x.slice.step is None:
+                c = chain_of(x.value)
+                if c is None:
+                    return None
+                lo = self.conc(x.slice.lower) if x.slice.lower is not None else 0
+                hi = self.conc(x.slice.upper) if x.slice.upper is not None else None
+                if not isinstance(lo, int) or lo < 0 or not (hi is None or (isinstance(hi, int) and hi < 0)):
+                    raise Unsupported("slice " + ast.unparse(x)[:40])
+                if lo:
+                    c = c + (("from", lo),)
+                if hi is not None:
+                    c = c + (("upto", -hi),)
+                return c
+            if isinstance(x, ast.Subscript) and isinstance(x.value, ast.Call) and isinstance(x.value.func, ast.Attribute) \
+                    and x.value.func.attr == "partition" and len(x.value.args) == 1:
+                c = chain_of(x.value.func.value)
+                if c is None:
+                    return None
+                sep, i = self.conc(x.value.args[0]), self.conc(x.slice)
+                if not (isinstance(sep, str) and len(sep) == 1 and i in (0, 2)):
+                    raise Unsupported("partition " + ast.unparse(x)[:40])
+                return c + (("head" if i == 0 else "tail", sep),)
+            return None
+        c = chain_of(v)
+        if c:
+            return Derived(c)
+        return None
+
     def cond(self, e, reach):
+        if self.derived_in(e):
+            return self.cond_derived(e, reach)
         try:
             return self.cond0(e, reach)
         except Unsupported:
@@ -376,6 +525,13 @@ class Eval:
                     else:
                         d = ~SL.length_gt(math.floor(n))
                     return reach & d
+                # s == "literal"
+                if isinstance(op, (ast.Eq, ast.NotEq)):
+                    for a, b in ((l, r), (r, l)):
+                        if self.is_str(a) and not self.mentions_str(b):
+                            k = self.conc(b)
+                            d = SL.lit(k) if isinstance(k, str) else EMPTY
+                            return reach & (d if isinstance(op, ast.Eq) else ~d)
                 # folded == K.casefold() where folded = s.casefold() was stored in a local
                 for a, b in ((l, r), (r, l)):
                     if isinstance(a, ast.Name) and isinstance(self.env.get(a.id), Folded):
@@ -391,6 +547,9 @@ class Eval:
                         d = anyof([k], ic=True)
                         return reach & (d if isinstance(op, ast.Eq) else ~d)
             raise Unsupported("compare " + ast.unparse(e))
+        if isinstance(e, ast.Call) and isinstance(e.func, ast.Name) and isinstance(self.env.get(e.func.id), StrMeth):
+            e = ast.Call(func=ast.Attribute(value=ast.Name(id="$value", ctx=ast.Load()), attr=self.env[e.func.id].attr, ctx=ast.Load()),
+                         args=e.args, keywords=e.keywords)
         if isinstance(e, ast.Call):
             f = e.func
             if isinstance(f, ast.Name) and f.id in ("any", "all") and isinstance(e.args[0], ast.GeneratorExp):
@@ -477,6 +636,34 @@ class Eval:
 
     def callfn0(self, e):
         f = e.func
+        # for_try_except(ValueError, lambda d: d(value), <tuple of bound methods>): the first method that does not
+        # raise gives the result (the helper's documented meaning; its body is checked by the table rules)
+        if isinstance(f, ast.Name) and f.id == "for_try_except" and len(e.args) == 3 and not e.keywords \
+                and ast.unparse(e.args[0]) == "ValueError" and isinstance(e.args[1], ast.Lambda) and len(e.args[1].args.args) == 1:
+            lam = e.args[1]
+            p_ = lam.args.args[0].arg
+            b_ = lam.body
+            if isinstance(b_, ast.Call) and isinstance(b_.func, ast.Name) and b_.func.id == p_ and len(b_.args) == 1 and not b_.keywords \
+                    and self.argkind(b_.args[0]) is not None:
+                try:
+                    items = self.conc(e.args[2])
+                except Unsupported:
+                    items = None
+                if isinstance(items, tuple) and items and all(isinstance(m, Meth) for m in items):
+                    out = {k: EMPTY for k in ("T", "F", "ID", "V", "E")}
+                    rest = EVERYTHING
+                    saved = self.env.get("$m")
+                    for m in items:
+                        self.env["$m"] = Conc(m)
+                        r = self.callfn(ast.Call(func=ast.Name(id="$m", ctx=ast.Load()), args=[b_.args[0]], keywords=[]))
+                        if r is None:
+                            raise Unsupported("for_try_except over " + repr(m))
+                        for k in ("T", "F", "ID", "V"):
+                            out[k] = out[k] | (rest & r[k])
+                        rest = rest & r["E"]
+                    self.env["$m"] = saved
+                    out["E"] = rest
+                    return out
         if isinstance(f, ast.Name) and isinstance(self.env.get(f.id), Conc) and isinstance(self.env[f.id].v, Meth) \
                 and len(e.args) == 1 and not e.keywords and self.argkind(e.args[0]) is not None:
             m = self.env[f.id].v
@@ -736,8 +923,49 @@ class Eval:
                 setattr(new, fl, x)
         return new if new is not None else s
 
+    def degetattr(self, s):
+        """getattr(obj, <name known here>) is the attribute access it abbreviates"""
+        hits = [n for n in ast.walk(s) if isinstance(n, ast.Call) and isinstance(n.func, ast.Name) and n.func.id == "getattr"
+                and len(n.args) == 2 and not n.keywords]
+        if not hits or isinstance(s, (ast.FunctionDef, ast.ClassDef)):
+            return s
+        names = {}
+        for n in hits:
+            try:
+                v = self.conc(n.args[1])
+            except (Unsupported, Opaque):
+                continue
+            if isinstance(v, str) and v.isidentifier():
+                names[id(n)] = v
+        if not names:
+            return s
+        fields = {ast.Expr: ("value",), ast.Assign: ("value",), ast.Return: ("value",), ast.If: ("test",),
+                  ast.For: ("iter",), ast.AugAssign: ("value",), ast.While: ("test",)}.get(type(s))
+        if not fields:
+            return s
+
+        class G(ast.NodeTransformer):
+            def visit_Call(self, n):
+                name = names.get(id(n))
+                self.generic_visit(n)
+                if name is not None:
+                    return ast.copy_location(ast.Attribute(value=n.args[0], attr=name, ctx=ast.Load()), n)
+                return n
+        new = copy.copy(s)
+        for fl in fields:
+            old = getattr(s, fl)
+            if old is not None and any(id(n) in names for n in ast.walk(old)):
+                # transform a clone whose getattr calls are matched by position
+                cl = clone(old)
+                for a, b in zip(ast.walk(old), ast.walk(cl)):
+                    if id(a) in names:
+                        names[id(b)] = names[id(a)]
+                setattr(new, fl, ast.fix_missing_locations(G().visit(cl)))
+        return new
+
     def stmt0(self, s, reach):
         s = self.expand_stmt(s)
+        s = self.degetattr(s)
         if isinstance(s, ast.Expr):
             if isinstance(s.value, ast.Constant):
                 return {"N": reach}
@@ -776,6 +1004,13 @@ class Eval:
                         raise Unsupported(f"Token(..., decoder={d})")
                     self.env[t.id] = TokenStr(dcls)
                     return {"N": reach}
+                dv = self.derive(v)
+                if dv is not None:
+                    self.env[t.id] = dv
+                    return {"N": reach}
+                if isinstance(v, ast.Attribute) and self.is_str(v.value):
+                    self.env[t.id] = StrMeth(v.attr)
+                    return {"N": reach}
                 fm = self.first_match(v)
                 if fm is not None:
                     self.env[t.id] = fm
@@ -807,6 +1042,11 @@ class Eval:
                     # value-returning callee: if it returns the input unchanged, alias
                     if not (res["ID"].empty()):
                         self.env[t.id] = STR
+                    elif not res.get("NONE", EMPTY).empty():
+                        # value-or-None: a later `is None` test on the local is decided by the callee's outcome
+                        old = self.env.get(t.id)
+                        base = (old.d - reach) if isinstance(old, Match) else EMPTY
+                        self.env[t.id] = Match(base | ((reach & accepts(res)) - res["NONE"]))
                     return {"N": reach & accepts(res), "E": reach & res["E"]}
                 if isinstance(v, ast.Attribute) and not self.mentions_str(v):
                     # a local alias of a bound method: is_identifier = self.decoder.is_identifier
@@ -845,9 +1085,31 @@ class Eval:
                         if isinstance(el, ast.Name):
                             self.env[el.id] = Part(kind, sep) if kind else None
                     return {"N": reach}
+                if isinstance(v, ast.Call) and isinstance(v.func, ast.Attribute) and v.func.attr == "partition" and len(v.args) == 1 \
+                        and len(t.elts) == 3 and not v.keywords:
+                    bd = self.derive(v.func.value)
+                    if bd is not None:
+                        sep = self.conc(v.args[0])
+                        if not (isinstance(sep, str) and len(sep) == 1):
+                            raise Unsupported("partition separator " + ast.unparse(v.args[0])[:40])
+                        for el, kind in zip(t.elts, ("head", None, "tail")):
+                            if isinstance(el, ast.Name):
+                                self.env[el.id] = bd.then(kind, sep) if kind else UNKNOWN
+                        return {"N": reach}
+                if not self.mentions_str(v) and not self.derived_in(v):
+                    try:
+                        vals = list(self.conc(v))
+                    except (Unsupported, TypeError):
+                        vals = None
+                    if vals is not None and len(vals) == len(t.elts):
+                        for el, x in zip(t.elts, vals):
+                            if isinstance(el, ast.Name):
+                                self.env[el.id] = Conc(x)
+                        return {"N": reach}
+                dep = self.mentions_str(v) or bool(self.derived_in(v))
                 for el in t.elts:
                     if isinstance(el, ast.Name):
-                        self.env[el.id] = None
+                        self.env[el.id] = UNKNOWN if dep else None
                 return {"N": reach}
             raise Unsupported("assign " + ast.unparse(s)[:60])
         if isinstance(s, ast.AugAssign) and isinstance(s.target, ast.Name) and isinstance(self.env.get(s.target.id), Conc):
@@ -859,8 +1121,8 @@ class Eval:
             return {"N": reach}
         if isinstance(s, ast.Return):
             v = s.value
-            if v is None:
-                return {"F": reach}
+            if v is None or (isinstance(v, ast.Constant) and v.value is None):
+                return {"F": reach, "NONE": reach}
             if self.is_str(v):
                 return {"ID": reach}
             if isinstance(v, ast.Constant):
@@ -868,7 +1130,7 @@ class Eval:
             if isinstance(v, ast.Call):
                 res = self.callfn(v)
                 if res is not None:
-                    return {k: reach & res[k] for k in ("T", "F", "ID", "V", "E")}
+                    return {k: reach & res[k] for k in ("T", "F", "ID", "V", "E", "NONE") if k in res}
             # library constructors at the boundary: acceptance language from the model table
             m = self.libmodel(v)
             if m is not None:
@@ -1048,9 +1310,10 @@ class Eval:
         if src.startswith("int(") :
             return EVERYTHING        # digits already constrained by the regex; radix validity not modelled
         if "for_try_except(ValueError, datetime.strptime" in src:
-            call = v
-            while not (isinstance(call, ast.Call) and isinstance(call.func, ast.Name) and call.func.id == "for_try_except"):
-                call = call.func.value
+            calls = [n for n in ast.walk(v) if isinstance(n, ast.Call) and isinstance(n.func, ast.Name) and n.func.id == "for_try_except"]
+            if len(calls) != 1 or len(calls[0].args) != 4:
+                raise Unsupported("for_try_except in " + src[:60])
+            call = calls[0]
             fmts = self.conc(call.args[3])
             return union(SL.strptime_dfa(f) for f in fmts)
         return None
@@ -1093,6 +1356,8 @@ def transform(res, kind):
     out = {k: tr(res[k]) for k in ("T", "F", "V", "E")}
     out["V"] = out["V"] | tr(res["ID"])
     out["ID"] = EMPTY
+    if "NONE" in res:
+        out["NONE"] = tr(res["NONE"])
     return out
 
 
